@@ -475,6 +475,16 @@ func runCase(c Case) *hx.Failure {
 	if f := checkTokens(c, l, toks); f != nil {
 		return f
 	}
+	// the same text once more: the same tokens with the same positions (the lexer keeps nothing between runs)
+	if toks2, p2 := lex(l.src); !p2 {
+		same := len(toks2) == len(toks)
+		for i := 0; same && i < len(toks); i++ {
+			same = sameTok(toks[i], toks2[i]) && toks[i].Lline == toks2[i].Lline && toks[i].Lpos == toks2[i].Lpos && toks[i].Pos == toks2[i].Pos
+		}
+		if !same {
+			return hx.Failf("again:tokens-differ", "lexing %q a second time gives other tokens or positions (%d tokens, then %d)", l.src, len(toks), len(toks2))
+		}
+	}
 	// oracle 3, token level
 	blank := blankComments(c.Pieces)
 	if f := checkBlankTokens(c, l, toks, blank); f != nil {
